@@ -6,11 +6,46 @@ from intrinsics import harness, HARNESS, uf_hash, opaque_err, bytes_to_bv
 
 
 # ------------------------------------------------------------------ secp256k1 (curve arithmetic is outside the encoder)
+def _pubkey_valid(b):
+    """secp256k1.ParsePubKey acceptance for concrete bytes"""
+    P = 0xFFFFFFFFFFFFFFFFFFFFFFFFFFFFFFFFFFFFFFFFFFFFFFFFFFFFFFFEFFFFFC2F
+    if len(b) == 33 and b[0] in (2, 3):
+        x = int.from_bytes(b[1:], 'big')
+        if x >= P:
+            return False
+        y2 = (pow(x, 3, P) + 7) % P
+        return pow(y2, (P - 1) // 2, P) in (0, 1) and (y2 == 0 or pow(y2, (P - 1) // 2, P) == 1)
+    if len(b) == 65 and b[0] in (4, 6, 7):
+        x = int.from_bytes(b[1:33], 'big')
+        y = int.from_bytes(b[33:], 'big')
+        if x >= P or y >= P:
+            return False
+        if (y * y - pow(x, 3, P) - 7) % P != 0:
+            return False
+        if b[0] in (6, 7) and (y & 1) != (b[0] & 1):
+            return False
+        return True
+    return False
+
+
 @intrinsic('github.com/decred/dcrd/dcrec/secp256k1/v4.ParsePubKey')
 def _parse_pubkey(ex, args, ins, where):
     """validity of a serialized public key is a nondeterministic bit (curve membership needs field arithmetic)"""
-    ok = ex.fresh('secp.ParsePubKey.ok', 1, boolean=True)
-    ex.cut_notes.add('stub: secp256k1.ParsePubKey returns a nondeterministic verdict')
+    els = ex.slice_elems(args[0])
+    if all(not is_sym(b) for b in els):
+        ok = _pubkey_valid(bytes(els))     # concrete key bytes: decide curve membership exactly
+    elif ex.pinned is not None:
+        ok = ex.fresh('secp.ParsePubKey.ok', 1, boolean=True)
+    else:
+        # the verdict is an uninterpreted predicate of the serialized key: unknown, but the same bytes always
+        # get the same verdict
+        key = ('secp_parse_ok', len(els))
+        f = ex.uf_cache.get(key)
+        if f is None:
+            f = ex.uf_cache[key] = z3.Function('secp_parse_ok_%d' % len(els), z3.BitVecSort(8 * len(els)), z3.BoolSort())
+        ok = f(bytes_to_bv(els))
+        ex.nondets['secp.ParsePubKey.ok#%d' % len(ex.nondets)] = ok
+    ex.cut_notes.add('stub: secp256k1.ParsePubKey verdict is an uninterpreted predicate of the key bytes')
     if ex.branch(ok, 'ParsePubKey verdict'):
         return [Ptr(ex.new_obj(Opaque('secp256k1.PublicKey')), ()), NIL]
     return [NIL, opaque_err('secp256k1 parse error')]
